@@ -1064,4 +1064,646 @@ theorem reachable_forest {s : State} (h : Reachable s) : Forest s.classes := by
   obtain ⟨decls, ops, rfl⟩ := h
   exact forest_run ops .nil
 
+/-! ### class_origin names the introducing class: an invariant over histories -/
+
+/-- `a` introduced the element named `nm` for `c`: `a` is `c` or an ancestor of `c`, exposes the
+    element, and `a`'s own superclass does not -/
+def Introduced (sel : Cls → List Elem) (cs : List Cls) (c a : Cls) (nm : Name) : Prop :=
+  a ∈ cs ∧ (a = c ∨ Spec.Desc cs c.name a.name) ∧ hasElem (sel a) nm = true ∧
+    (∀ p ∈ cs, Spec.IsChild a p.name → hasElem (sel p) nm = false)
+
+/-- every stored element names, as class_origin, the class that introduced it -/
+def OriginOK (sel : Cls → List Elem) (cs : List Cls) : Prop :=
+  ∀ c ∈ cs, ∀ e ∈ sel c, ∃ a, e.origin = some a.name ∧ Introduced sel cs c a e.name
+
+/-- every Override qualifier of the declaration names the element that carries it -/
+def wfElem (d : Elem) : Bool :=
+  match keyOfVal (overrideVal d.quals) with
+  | .ok o => ieq o d.name
+  | .error _ => true
+
+def WFElems (own : List Elem) : Prop := ∀ d ∈ own, wfElem d = true
+
+theorem wfElem_key {d : Elem} {oname : Name} (h : wfElem d = true)
+    (hk : keyOfVal (overrideVal d.quals) = .ok oname) : ieq oname d.name = true := by
+  unfold wfElem at h; rw [hk] at h; exact h
+
+theorem desc_mono {cs cs' : List Cls} (hsub : ∀ c ∈ cs, c ∈ cs') {x a : Name} (h : Spec.Desc cs x a) :
+    Spec.Desc cs' x a := by
+  induction h with
+  | child hc hch => exact .child (hsub _ hc) hch
+  | trans _ hc hch ih => exact .trans ih (hsub _ hc) hch
+
+theorem hasElem_congr {es : List Elem} {a b : Name} (h : ieq a b = true) : hasElem es a = hasElem es b := by
+  unfold hasElem
+  congr 1; funext e
+  exact ieq_congr_right h
+
+theorem findElem_some {es : List Elem} {n : Name} {e : Elem} (h : findElem es n = some e) :
+    e ∈ es ∧ ieq e.name n = true := by
+  unfold findElem at h
+  have h1 := List.mem_of_find?_eq_some h
+  have h2 := List.find?_some h
+  exact ⟨h1, by simpa using h2⟩
+
+theorem hasElem_of_mem {es : List Elem} {e : Elem} (h : e ∈ es) : hasElem es e.name = true := by
+  simp only [hasElem, List.any_eq_true]; exact ⟨e, h, ieq_refl _⟩
+
+/-- witnesses of old classes survive the addition of a new (leaf) class -/
+theorem introduced_append {sel : Cls → List Elem} {cs : List Cls} {r c a : Cls} {nm : Name}
+    (hF : Forest (cs ++ [r])) (hc : c ∈ cs) (h : Introduced sel cs c a nm) :
+    Introduced sel (cs ++ [r]) c a nm := by
+  obtain ⟨ha, hanc, hex, hpar⟩ := h
+  have hsub : ∀ x ∈ cs, x ∈ cs ++ [r] := fun x hx => by simp [hx]
+  refine ⟨hsub a ha, ?_, hex, ?_⟩
+  · rcases hanc with rfl | hd
+    · exact Or.inl rfl
+    · exact Or.inr (desc_mono hsub hd)
+  · intro p hp hch
+    simp at hp
+    rcases hp with hp | rfl
+    · exact hpar p hp hch
+    · exact absurd hch (forest_last_leaf hF a (hsub a ha))
+
+/-- the new class `r`, resolved below `P`, names correct origins -/
+theorem originOK_new {sel : Cls → List Elem} {decls : List QDecl} {cs : List Cls} {r P : Cls}
+    {own : List Elem} (hF : Forest (cs ++ [r])) (hok : OriginOK sel cs) (hP : P ∈ cs)
+    (hch : Spec.IsChild r P.name)
+    (hres : resolveElems decls r.name own (some (sel P)) = .ok (sel r)) (hwf : WFElems own) :
+    ∀ e ∈ sel r, ∃ a, e.origin = some a.name ∧ Introduced sel (cs ++ [r]) r a e.name := by
+  have hsub : ∀ x ∈ cs, x ∈ cs ++ [r] := fun x hx => by simp [hx]
+  have hFcs : Forest cs := (forest_snoc_inv hF).1
+  have hr : r ∈ cs ++ [r] := by simp
+  -- an element the superclass exposes: its introducer also introduced it for r
+  have lift : ∀ p ∈ sel P, ∀ nm, ieq nm p.name = true →
+      ∃ a, p.origin = some a.name ∧ Introduced sel (cs ++ [r]) r a nm := by
+    intro p hp nm hnm
+    obtain ⟨a, ho, ha, hanc, hex, hpar⟩ := hok P hP p hp
+    refine ⟨a, ho, hsub a ha, Or.inr ?_, ?_, ?_⟩
+    · rcases hanc with rfl | hd
+      · exact .child hr hch
+      · exact .trans (desc_mono hsub hd) hr hch
+    · rw [hasElem_congr hnm]; exact hex
+    · intro q hq hqc
+      simp at hq
+      rcases hq with hq | rfl
+      · rw [hasElem_congr hnm]; exact hpar q hq hqc
+      · exact absurd hqc (forest_last_leaf hF a (hsub a ha))
+  intro e he
+  -- C12_origin_and_propagated, inlined
+  unfold resolveElems at hres
+  simp only at hres
+  cases hm : mapE (resolveElem decls r.name (sel P)) own with
+  | error err => simp [hm] at hres
+  | ok es =>
+    simp [hm] at hres
+    rw [← hres] at he
+    rcases List.mem_append.mp he with he' | he'
+    · obtain ⟨d, hd, hde⟩ := mapE_ok_mem hm e he'
+      obtain ⟨hn, hcase⟩ := resolveElem_ok hde
+      rcases hcase with ⟨h1, h2, _⟩ | ⟨h1, _, oname, s0, hk, hf, ho, _⟩
+      · -- newly introduced by r
+        refine ⟨r, h2, hr, Or.inl rfl, ?_, ?_⟩
+        · rw [hres] at he; exact hasElem_of_mem he
+        · intro q hq hqc
+          simp at hq
+          rcases hq with hq | rfl
+          · -- q is r's superclass, i.e. P
+            have : q = P := by
+              obtain ⟨s1, hs1, _, hi1⟩ := hqc
+              obtain ⟨s2, hs2, _, hi2⟩ := hch
+              rw [hs1] at hs2; cases hs2
+              exact forest_unique hFcs q hq P hP (ieq_trans (ieq_symm hi1) hi2)
+            subst this
+            rw [hn]; exact h1
+          · exact absurd hqc (forest_last_leaf hF q hr)
+      · -- overriding the superclass element named by Override (= its own name)
+        obtain ⟨hs0, hs0i⟩ := findElem_some hf
+        have hwf' := wfElem_key (hwf d hd) hk
+        obtain ⟨a, hoa, hint⟩ := lift s0 hs0 e.name (by rw [hn]; exact ieq_symm (ieq_trans hs0i hwf'))
+        exact ⟨a, by rw [ho]; exact hoa, hint⟩
+    · obtain ⟨p, hp, rfl⟩ := List.mem_map.mp he'
+      obtain ⟨hp1, _⟩ := List.mem_filter.mp hp
+      obtain ⟨a, hoa, hint⟩ := lift p hp1 p.name (ieq_refl _)
+      exact ⟨a, by simpa [copyElem] using hoa, by simpa [copyElem] using hint⟩
+
+/-- a new root class: every element originates in the class itself -/
+theorem originOK_new_root {sel : Cls → List Elem} {decls : List QDecl} {cs : List Cls} {r : Cls}
+    {own : List Elem} (hsup : r.super = none)
+    (hres : resolveElems decls r.name own none = .ok (sel r)) :
+    ∀ e ∈ sel r, ∃ a, e.origin = some a.name ∧ Introduced sel (cs ++ [r]) r a e.name := by
+  intro e he
+  unfold resolveElems at hres
+  simp only at hres
+  obtain ⟨d, hd, hde⟩ := mapE_ok_mem hres e he
+  obtain ⟨_, _, _, _, ho, _, _⟩ := setNewElem_ok hde
+  refine ⟨r, ho, by simp, Or.inl rfl, hasElem_of_mem he, ?_⟩
+  intro q _ hqc
+  obtain ⟨s1, hs1, _, _⟩ := hqc
+  rw [hsup] at hs1; cases hs1
+
+theorem resolveClass_parts {decls : List QDecl} {cs : List Cls} {c r : Cls}
+    (h : resolveClass decls cs c = .ok r) :
+    ∃ sup, findSuper cs c = .ok sup ∧ resolveParts decls c sup = .ok r := by
+  unfold resolveClass at h
+  cases h1 : findSuper cs c with
+  | error e => simp [h1] at h
+  | ok sup =>
+    cases h2 : validateClass decls c sup with
+    | error e => simp [h1, h2] at h
+    | ok u => simp [h1, h2] at h; exact ⟨sup, rfl, h⟩
+
+/-- the superclass found for `c`: either none (then the stored superclass is none), or a stored class
+    of which the resolved class is a child -/
+theorem findSuper_cases {cs : List Cls} {c : Cls} {sup : Option Cls} (h : findSuper cs c = .ok sup) :
+    (sup = none ∧ normSuper c.super = none) ∨
+    (∃ P s, sup = some P ∧ P ∈ cs ∧ normSuper c.super = some s ∧ s ≠ [] ∧ ieq s P.name = true) := by
+  obtain ⟨h1, h2⟩ := findSuper_ok h
+  cases hs : c.super with
+  | none => exact Or.inl ⟨h2 (Or.inl hs), by simp [normSuper, superSet]⟩
+  | some s =>
+    by_cases he : s = []
+    · subst he; exact Or.inl ⟨h2 (Or.inr hs), by simp [normSuper, superSet]⟩
+    · obtain ⟨hf, hsome⟩ := h1 s hs he
+      cases sup with
+      | none => simp at hsome
+      | some P =>
+        obtain ⟨hP, hPi⟩ := findClass_some hf
+        refine Or.inr ⟨P, s, rfl, hP, ?_, he, ieq_symm hPi⟩
+        simp [normSuper, superSet, he]
+
+/-- adding a class resolved below `P` (or as a root) keeps `OriginOK` -/
+theorem originOK_snoc {sel : Cls → List Elem} {decls : List QDecl} {cs : List Cls} {r : Cls}
+    {own : List Elem} (hF' : Forest (cs ++ [r])) (hok : OriginOK sel cs)
+    (hcase : (r.super = none ∧ resolveElems decls r.name own none = .ok (sel r)) ∨
+      (∃ P, P ∈ cs ∧ Spec.IsChild r P.name ∧ resolveElems decls r.name own (some (sel P)) = .ok (sel r)))
+    (hwf : WFElems own) : OriginOK sel (cs ++ [r]) := by
+  intro x hx e he
+  simp at hx
+  rcases hx with hx | rfl
+  · obtain ⟨a, ho, hint⟩ := hok x hx e he
+    exact ⟨a, ho, introduced_append hF' hx hint⟩
+  · rcases hcase with ⟨hnone, hres⟩ | ⟨P, hP, hch, hres⟩
+    · exact originOK_new_root hnone hres e he
+    · exact originOK_new hF' hok hP hch hres hwf e he
+
+/-- how a successfully resolved class relates to the store it was resolved against -/
+theorem resolveClass_case {sel : Cls → List Elem} {decls : List QDecl} {cs : List Cls} {c r : Cls}
+    (hr : resolveClass decls cs c = .ok r)
+    (hsel : ∀ sup, resolveParts decls c sup = .ok r →
+      resolveElems decls c.name (sel c) (sup.map sel) = .ok (sel r)) :
+    (r.super = none ∧ resolveElems decls r.name (sel c) none = .ok (sel r)) ∨
+    (∃ P, P ∈ cs ∧ Spec.IsChild r P.name ∧ resolveElems decls r.name (sel c) (some (sel P)) = .ok (sel r)) := by
+  obtain ⟨hn, hs, _⟩ := resolveClass_ok hr
+  obtain ⟨sup, hfs, hparts⟩ := resolveClass_parts hr
+  have hres := hsel sup hparts
+  rw [← hn] at hres
+  rcases findSuper_cases hfs with ⟨rfl, hnone⟩ | ⟨P, s, rfl, hP, hsome, hne, hi⟩
+  · exact Or.inl ⟨by rw [hs]; exact hnone, hres⟩
+  · exact Or.inr ⟨P, hP, ⟨s, by rw [hs]; exact hsome, hne, hi⟩, hres⟩
+
+/-- CreateClass / add_cimobjects keep `OriginOK` -/
+theorem originOK_append {sel : Cls → List Elem} {decls : List QDecl} {cs : List Cls} {c r : Cls}
+    (hF : Forest cs) (hok : OriginOK sel cs) (hr : resolveClass decls cs c = .ok r)
+    (hfresh : hasClass cs c.name = false)
+    (hsel : ∀ sup, resolveParts decls c sup = .ok r →
+      resolveElems decls c.name (sel c) (sup.map sel) = .ok (sel r))
+    (hwf : WFElems (sel c)) : OriginOK sel (cs ++ [r]) := by
+  obtain ⟨hn, hs, hp⟩ := resolveClass_ok hr
+  have hF' : Forest (cs ++ [r]) := by
+    refine .snoc hF (by rw [hn]; exact hfresh) ?_
+    intro sn hsn hne
+    rw [hs] at hsn
+    exact hp sn (normSuper_some hsn).1 hne
+  exact originOK_snoc hF' hok (resolveClass_case hr hsel) hwf
+
+/-- `keep` is closed upwards: the superclass of a kept class is kept -/
+def UpClosed (cs : List Cls) (keep : Cls → Bool) : Prop :=
+  ∀ d ∈ cs, keep d = true → ∀ p ∈ cs, Spec.IsChild d p.name → keep p = true
+
+theorem desc_filter {cs : List Cls} {keep : Cls → Bool} (hup : UpClosed cs keep) {x a : Name}
+    (h : Spec.Desc cs x a) (hx : ∀ q ∈ cs, q.name = x → keep q = true) :
+    Spec.Desc (cs.filter keep) x a := by
+  induction h with
+  | @child d a hd hch =>
+    exact .child (List.mem_filter.mpr ⟨hd, hx d hd rfl⟩) hch
+  | @trans d m a _ hd hch ih =>
+    have hkd := hx d hd rfl
+    refine .trans (ih ?_) (List.mem_filter.mpr ⟨hd, hkd⟩) hch
+    intro q hq hqm
+    exact hup d hd hkd q hq (by rw [hqm]; exact hch)
+
+theorem desc_top_kept {cs : List Cls} {keep : Cls → Bool} (hup : UpClosed cs keep) {x an : Name}
+    (h : Spec.Desc cs x an) (hx : ∀ q ∈ cs, q.name = x → keep q = true) :
+    ∀ a ∈ cs, a.name = an → keep a = true := by
+  induction h with
+  | @child d an hd hch =>
+    intro a ha han
+    exact hup d hd (hx d hd rfl) a ha (by rw [han]; exact hch)
+  | @trans d m an _ hd hch ih =>
+    have hkd := hx d hd rfl
+    exact ih (fun q hq hqm => hup d hd hkd q hq (by rw [hqm]; exact hch))
+
+theorem originOK_filter {sel : Cls → List Elem} {cs : List Cls} {keep : Cls → Bool}
+    (hF : Forest cs) (hok : OriginOK sel cs) (hup : UpClosed cs keep) : OriginOK sel (cs.filter keep) := by
+  intro c hc e he
+  obtain ⟨hcm, hck⟩ := List.mem_filter.mp hc
+  obtain ⟨a, ho, ha, hanc, hex, hpar⟩ := hok c hcm e he
+  have hbottom : ∀ q ∈ cs, q.name = c.name → keep q = true := by
+    intro q hq hqn
+    have : q = c := forest_unique hF q hq c hcm (by rw [hqn]; exact ieq_refl _)
+    rw [this]; exact hck
+  refine ⟨a, ho, ?_, ?_, hex, fun p hp hch => hpar p (List.mem_filter.mp hp).1 hch⟩
+  · rcases hanc with rfl | hd
+    · exact hc
+    · exact List.mem_filter.mpr ⟨ha, desc_top_kept hup hd hbottom a ha rfl⟩
+  · rcases hanc with rfl | hd
+    · exact Or.inl rfl
+    · exact Or.inr (desc_filter hup hd hbottom)
+
+theorem originOK_congr {sel : Cls → List Elem} {A B : List Cls} (hAB : ∀ x, x ∈ A ↔ x ∈ B)
+    (hok : OriginOK sel A) : OriginOK sel B := by
+  intro c hc e he
+  obtain ⟨a, ho, ha, hanc, hex, hpar⟩ := hok c ((hAB c).mpr hc) e he
+  refine ⟨a, ho, (hAB a).mp ha, ?_, hex, fun p hp hch => hpar p ((hAB p).mpr hp) hch⟩
+  rcases hanc with rfl | hd
+  · exact Or.inl rfl
+  · exact Or.inr (desc_mono (fun x hx => (hAB x).mp hx) hd)
+
+theorem mem_replaceClass {cs : List Cls} {r m : Cls} (hm : m ∈ cs) (hmi : ieq m.name r.name = true)
+    (x : Cls) : x ∈ replaceClass cs r ↔ (x ∈ cs ∧ ieq x.name r.name = false) ∨ x = r := by
+  simp only [replaceClass, List.mem_map]
+  constructor
+  · rintro ⟨y, hy, rfl⟩
+    by_cases h : ieq y.name r.name = true
+    · exact Or.inr (by simp [h])
+    · exact Or.inl (by simp [h]; exact hy)
+  · rintro (⟨hx, hxi⟩ | rfl)
+    · exact ⟨x, hx, by simp [hxi]⟩
+    · exact ⟨m, hm, by simp [hmi]⟩
+
+/-- ModifyClass (of a leaf class, superclass unchanged up to case) keeps `OriginOK` -/
+theorem originOK_modify {sel : Cls → List Elem} {decls : List QDecl} {cs : List Cls} {c r orig : Cls}
+    (hF : Forest cs) (hok : OriginOK sel cs) (hfind : findClass cs c.name = some orig)
+    (hr : resolveClass decls cs c = .ok r) (hleaf : children cs (some c.name) = [])
+    (hcompat : SuperCompat orig.super (normSuper c.super))
+    (hsel : ∀ sup, resolveParts decls c sup = .ok r →
+      resolveElems decls c.name (sel c) (sup.map sel) = .ok (sel r))
+    (hwf : WFElems (sel c)) : OriginOK sel (replaceClass cs r) := by
+  obtain ⟨hn, hs, _⟩ := resolveClass_ok hr
+  obtain ⟨horig, hoi⟩ := findClass_some hfind
+  -- no stored class is a child of the class being modified
+  have nochild : ∀ d ∈ cs, ¬ Spec.IsChild d c.name := by
+    intro d hd hch
+    have : d.name ∈ children cs (some c.name) := mem_children.mpr ⟨d, hd, rfl, hch⟩
+    rw [hleaf] at this; simp at this
+  let keep : Cls → Bool := fun x => !(ieq x.name c.name)
+  have hup : UpClosed cs keep := by
+    intro d hd _ p hp hch
+    cases hpi : ieq p.name c.name with
+    | false => simp [keep, hpi]
+    | true => exact absurd (isChild_congr hpi hch) (nochild d hd)
+  have hF0 : Forest (cs.filter keep) := forest_filter hF keep hup
+  have hok0 : OriginOK sel (cs.filter keep) := originOK_filter hF hok hup
+  -- the resolved class sits below a class that is kept (or is a root)
+  have hcase0 : (r.super = none ∧ resolveElems decls r.name (sel c) none = .ok (sel r)) ∨
+      (∃ P, P ∈ cs.filter keep ∧ Spec.IsChild r P.name ∧
+        resolveElems decls r.name (sel c) (some (sel P)) = .ok (sel r)) := by
+    rcases resolveClass_case hr hsel with h | ⟨P, hP, hch, hres⟩
+    · exact Or.inl h
+    · refine Or.inr ⟨P, List.mem_filter.mpr ⟨hP, ?_⟩, hch, hres⟩
+      cases hpi : ieq P.name c.name with
+      | false => simp [keep, hpi]
+      | true =>
+        -- then the class would be its own superclass: orig is a child of c.name
+        exfalso
+        have hPo : P = orig := forest_unique hF P hP orig horig (ieq_trans hpi (ieq_symm hoi))
+        obtain ⟨s, hsr, hne, hi⟩ := hch
+        -- orig's parent exists and is named like r's parent s, i.e. like P = orig itself
+        rw [hs] at hsr
+        obtain ⟨s', hs', hne', hi'⟩ := hcompat s hsr hne
+        have h1 : Spec.IsChild orig orig.name := ⟨s', hs', hne', by rw [← hPo]; exact ieq_trans hi' hi⟩
+        exact nochild orig horig (isChild_congr hoi h1)
+  have hF' : Forest (cs.filter keep ++ [r]) := by
+    refine .snoc hF0 ?_ ?_
+    · apply hasClass_false_iff.mpr
+      intro x hx
+      have := (List.mem_filter.mp hx).2
+      rw [hn]; simpa [keep] using this
+    · intro sn hsn _
+      rcases hcase0 with ⟨hnone, _⟩ | ⟨P, hP, ⟨s, hsr, _, hi⟩, _⟩
+      · rw [hnone] at hsn; cases hsn
+      · rw [hsn] at hsr; cases hsr
+        exact hasClass_iff.mpr ⟨P, hP, ieq_symm hi⟩
+  have hok' := originOK_snoc hF' hok0 hcase0 hwf
+  apply originOK_congr _ hok'
+  intro x
+  rw [mem_replaceClass horig (by rw [hn]; exact hoi) x, List.mem_append, List.mem_filter]
+  simp [keep, hn]
+
+theorem upClosed_delete {cs : List Cls} (hf : Forest cs) (n : Name) :
+    UpClosed cs (fun c => !(inNames (subtreeList cs n) c.name)) := by
+  intro d hd hk p hp hch
+  cases hkp : inNames (subtreeList cs n) p.name with
+  | false => simp [hkp]
+  | true =>
+    exfalso
+    have hdn : inNames (subtreeList cs n) d.name = true := by
+      apply (inNames_subtree_class hf hd).mpr
+      rcases (inNames_subtree_class hf hp).mp hkp with hi | hdesc
+      · exact Or.inr (.child hd (isChild_congr hi hch))
+      · exact Or.inr (.trans hdesc hd hch)
+    simp [hdn] at hk
+
+/-- the declarations an operation submits name, in every Override qualifier, the element that
+    carries it (case-insensitively) -/
+def opWF : Op → Bool
+  | .create c => c.props.all wfElem && c.meths.all wfElem
+  | .add c => c.props.all wfElem && c.meths.all wfElem
+  | .modify c => c.props.all wfElem && c.meths.all wfElem
+  | _ => true
+
+def OpWF (op : Op) : Prop := opWF op = true
+
+instance (op : Op) : Decidable (OpWF op) := by unfold OpWF; infer_instance
+
+theorem wf_of_all {c : Cls} (h : (c.props.all wfElem && c.meths.all wfElem) = true) :
+    WFElems c.props ∧ WFElems c.meths := by
+  simp only [Bool.and_eq_true, List.all_eq_true] at h
+  exact ⟨fun d hd => h.1 d hd, fun d hd => h.2 d hd⟩
+
+theorem originOK_step {sel : Cls → List Elem}
+    (hsel : ∀ decls c sup r, resolveParts decls c sup = .ok r →
+      resolveElems decls c.name (sel c) (sup.map sel) = .ok (sel r))
+    (hwfsel : ∀ c, WFElems c.props ∧ WFElems c.meths → WFElems (sel c))
+    {s : State} (hF : Forest s.classes) (hok : OriginOK sel s.classes) (op : Op) (hwf : OpWF op) :
+    OriginOK sel (step s op).1.classes := by
+  cases op with
+  | create c =>
+    simp only [step]
+    cases h : createClass s c with
+    | error e => exact hok
+    | ok s' =>
+      obtain ⟨r, hr, rfl, hfresh⟩ := createClass_ok h
+      exact originOK_append hF hok hr hfresh (fun sup => hsel _ c sup r) (hwfsel c (wf_of_all hwf))
+  | add c =>
+    simp only [step]
+    cases h : addClass s c with
+    | error e => exact hok
+    | ok s' =>
+      obtain ⟨r, hr, rfl, hfresh⟩ := addClass_ok h
+      exact originOK_append hF hok hr hfresh (fun sup => hsel _ c sup r) (hwfsel c (wf_of_all hwf))
+  | modify c =>
+    simp only [step]
+    cases h : modifyClass s c with
+    | error e => exact hok
+    | ok s' =>
+      obtain ⟨orig, r, hfind, hr, rfl, hleaf, _, hcompat⟩ := modifyClass_ok h
+      exact originOK_modify hF hok hfind hr hleaf hcompat (fun sup => hsel _ c sup r) (hwfsel c (wf_of_all hwf))
+  | delete n =>
+    simp only [step]
+    cases h : deleteClass s n with
+    | error e => exact hok
+    | ok s' =>
+      obtain ⟨_, hc, _, _⟩ := deleteClass_ok h
+      show OriginOK sel s'.classes
+      rw [hc]; exact originOK_filter hF hok (upClosed_delete hF n)
+  | get n f => simp only [step]; split <;> exact hok
+  | enumNames cn d => simp only [step]; split <;> exact hok
+  | enumClasses cn d f => simp only [step]; split <;> exact hok
+  | supers n => simp only [step]; split <;> exact hok
+  | addInst i => exact hok
+  | enumInsts n => simp only [step]; split <;> exact hok
+
+theorem originOK_run {sel : Cls → List Elem}
+    (hsel : ∀ decls c sup r, resolveParts decls c sup = .ok r →
+      resolveElems decls c.name (sel c) (sup.map sel) = .ok (sel r))
+    (hwfsel : ∀ c, WFElems c.props ∧ WFElems c.meths → WFElems (sel c)) :
+    ∀ (ops : List Op) {s : State}, Forest s.classes → OriginOK sel s.classes →
+      (∀ op ∈ ops, OpWF op) → OriginOK sel (run s ops).1.classes
+  | [], s, _, hok, _ => hok
+  | op :: ops, s, hF, hok, hwf => by
+    simp only [run]
+    exact originOK_run hsel hwfsel ops (forest_step hF op)
+      (originOK_step hsel hwfsel hF hok op (hwf op (by simp)))
+      (fun o ho => hwf o (by simp [ho]))
+
+theorem hsel_props : ∀ decls c sup r, resolveParts decls c sup = .ok r →
+    resolveElems decls c.name ((·.props) c) (sup.map (·.props)) = .ok ((·.props) r) := by
+  intro decls c sup r h
+  obtain ⟨cq, ps, ms, _, h2, _, rfl⟩ := resolveParts_ok h
+  exact h2
+
+theorem hsel_meths : ∀ decls c sup r, resolveParts decls c sup = .ok r →
+    resolveElems decls c.name ((·.meths) c) (sup.map (·.meths)) = .ok ((·.meths) r) := by
+  intro decls c sup r h
+  obtain ⟨cq, ps, ms, _, _, h3, rfl⟩ := resolveParts_ok h
+  exact h3
+
+theorem originOK_empty (sel : Cls → List Elem) : OriginOK sel [] := by
+  intro c hc; simp at hc
+
+/-! ### qualifiers of an overriding element -/
+
+/-- qualifier name as a dictionary key -/
+def lname (q : Qual) : Name := lower q.name
+
+theorem hasQual_eq_lnames (l : List Qual) (n : Name) :
+    hasQual l n = (l.map lname).contains (lower n) := by
+  induction l with
+  | nil => simp [hasQual]
+  | cons a l ih =>
+    simp only [hasQual, List.any_cons, List.map_cons, List.contains_cons] at ih ⊢
+    rw [ih]
+    simp [ieq, lname, BEq.comm]
+
+theorem hasQual_congr_lnames {l l' : List Qual} (h : l.map lname = l'.map lname) (n : Name) :
+    hasQual l n = hasQual l' n := by
+  rw [hasQual_eq_lnames, hasQual_eq_lnames, h]
+
+theorem initQual_name {decls : List QDecl} {q q' : Qual} (h : initQual decls q = .ok q') :
+    q'.name = q.name ∧ q'.val = q.val := by
+  unfold initQual at h
+  cases hd : findDecl decls q.name with
+  | none => simp [hd] at h
+  | some d => simp [hd] at h; subst h; exact ⟨rfl, rfl⟩
+
+theorem setQual_lnames (l : List Qual) (q' : Qual) : (setQual l q').map lname = l.map lname := by
+  simp only [setQual, List.map_map]
+  apply List.map_congr_left
+  intro x _
+  by_cases h : ieq x.name q'.name = true
+  · simp [h, lname]; exact (ieq_iff.mp h).symm
+  · simp [h]
+
+theorem findQual_none_iff {l : List Qual} {n : Name} : findQual l n = none ↔ hasQual l n = false := by
+  simp [findQual, hasQual, List.find?_eq_none]
+
+theorem findQual_some_name {l : List Qual} {n : Name} {q : Qual} (h : findQual l n = some q) :
+    ieq q.name n = true ∧ hasQual l n = true := by
+  unfold findQual at h
+  have h1 := List.mem_of_find?_eq_some h
+  have h2 : ieq q.name n = true := by simpa using List.find?_some h
+  exact ⟨h2, by simp only [hasQual, List.any_eq_true]; exact ⟨q, h1, h2⟩⟩
+
+/-- the names one iteration of the inherit loop leaves behind -/
+theorem inheritStep_lnames {decls : List QDecl} {cur cur' : List Qual} {inh : Qual}
+    (h : inheritStep decls cur inh = .ok cur') :
+    cur'.map lname =
+      cur.map lname ++ (if truthy inh.tosub && !(hasQual cur inh.name) then [lname inh] else []) := by
+  unfold inheritStep at h
+  cases hf : findQual cur inh.name with
+  | none =>
+    have hq := findQual_none_iff.mp hf
+    simp only [hf] at h
+    by_cases ht : truthy inh.tosub = true
+    · simp [ht] at h; subst h; simp [ht, hq, lname]
+    · simp [ht] at h; subst h; simp [ht]
+  | some q =>
+    obtain ⟨_, hq⟩ := findQual_some_name hf
+    simp only [hf] at h
+    have key : ∀ q', .ok (setQual cur q') = (Except.ok cur' : Except PyExc (List Qual)) →
+        cur'.map lname = cur.map lname := by
+      intro q' hq'; injection hq' with hq'; subst hq'; exact setQual_lnames cur q'
+    have : cur'.map lname = cur.map lname := by
+      split at h
+      · split at h
+        · cases hi : initQual decls q with
+          | error e => simp [hi] at h
+          | ok q' => simp only [hi] at h; exact key q' h
+        · split at h
+          · simp at h
+          · cases hi : initQual decls q with
+            | error e => simp [hi] at h
+            | ok q' => simp only [hi] at h; exact key _ h
+      · split at h
+        · cases hi : initQual decls q with
+          | error e => simp [hi] at h
+          | ok q' => simp only [hi] at h; exact key q' h
+        · simp at h
+    simp [this, hq]
+
+theorem hasQual_append_one (cur : List Qual) (l : List Name) (n : Name)
+    {cur' : List Qual} (h : cur'.map lname = cur.map lname ++ l) (hn : l.contains (lower n) = false) :
+    hasQual cur' n = hasQual cur n := by
+  rw [hasQual_eq_lnames, hasQual_eq_lnames, h]
+  simp [List.contains_append, hn] <;> simp_all
+
+theorem inheritFold_lnames {decls : List QDecl} :
+    ∀ (rest cur r : List Qual), List.Pairwise (fun a b => ieq a.name b.name = false) rest →
+      foldE (inheritStep decls) cur rest = .ok r →
+      r.map lname = cur.map lname ++
+        (rest.filter (fun q => truthy q.tosub && !(hasQual cur q.name))).map lname
+  | [], cur, r, _, h => by simp [foldE] at h; subst h; simp
+  | inh :: rest, cur, r, hpw, h => by
+    simp only [foldE] at h
+    cases hs : inheritStep decls cur inh with
+    | error e => simp [hs] at h
+    | ok cur' =>
+      simp only [hs] at h
+      have hstep := inheritStep_lnames hs
+      obtain ⟨hhead, htail⟩ := List.pairwise_cons.mp hpw
+      have ih := inheritFold_lnames rest cur' r htail h
+      -- membership tests of the remaining names are not affected by what this step appended
+      have hsame : ∀ x ∈ rest, hasQual cur' x.name = hasQual cur x.name := by
+        intro x hx
+        apply hasQual_append_one cur _ x.name hstep
+        have hne := hhead x hx
+        split
+        · simp [lname]
+          intro hcontra
+          have : ieq inh.name x.name = true := ieq_iff.mpr hcontra.symm
+          simp [this] at hne
+        · simp
+      have hfilter : rest.filter (fun q => truthy q.tosub && !(hasQual cur' q.name)) =
+          rest.filter (fun q => truthy q.tosub && !(hasQual cur q.name)) := by
+        apply List.filter_congr
+        intro x hx; rw [hsame x hx]
+      rw [ih, hstep, hfilter, List.filter_cons]
+      by_cases hc : (truthy inh.tosub && !(hasQual cur inh.name)) = true
+      · simp [hc]
+      · simp [hc]
+
+/-- **qualifiers of an overriding element = own ++ inherited ToSubclass ones not redeclared**
+    (dictionary keys, i.e. names up to case; the inherited dictionary has pairwise different keys) -/
+theorem resolveQuals_override_lnames {decls : List QDecl} {own inh r : List Qual}
+    (hpw : List.Pairwise (fun a b => ieq a.name b.name = false) inh)
+    (h : resolveQuals decls own inh true = .ok r) :
+    r.map lname = own.map lname ++ (Spec.inheritedQuals own inh).map lname := by
+  unfold resolveQuals at h
+  simp only [Bool.not_true, Bool.false_eq_true, if_false] at h
+  cases h1 : mapE (fun q => if hasQual inh q.name then .ok q else initQual decls q) own with
+  | error e => simp [h1] at h
+  | ok q1 =>
+    simp only [h1] at h
+    have hn : q1.map lname = own.map lname := by
+      apply mapE_ok_map lname lname _ h1
+      intro a b hab
+      by_cases hq : hasQual inh a.name = true
+      · simp [hq] at hab; subst hab; rfl
+      · simp [hq] at hab; simp [lname, (initQual_name hab).1]
+    have := inheritFold_lnames inh q1 r hpw h
+    rw [this, hn]
+    congr 2
+    unfold Spec.inheritedQuals
+    apply List.filter_congr
+    intro x _
+    rw [hasQual_congr_lnames hn]
+
+
+theorem findClass_of_mem {cs : List Cls} (hf : Forest cs) {x : Cls} (hx : x ∈ cs) {n : Name}
+    (hn : ieq x.name n = true) : findClass cs n = some x := by
+  cases h : findClass cs n with
+  | none =>
+    have := hasClass_false_iff.mp (findClass_none h) x hx
+    simp [hn] at this
+  | some y =>
+    obtain ⟨hy, hyi⟩ := findClass_some h
+    have : y = x := forest_unique hf y hy x hx (ieq_trans hyi (ieq_symm hn))
+    rw [this]
+
+/-- **completeness of `_get_superclass_names`** on a forest: every class the start class descends
+    from is listed (up to case) -/
+theorem superChain_complete {cs : List Cls} (hf : Forest cs) {xn a : Name} (hd : Spec.Desc cs xn a) :
+    ∀ (f : Nat) (l : List Name), superChain f cs xn = .ok l → ∃ s ∈ l, ieq s a = true := by
+  induction hd with
+  | @child x a hx hch =>
+    intro f l hl
+    obtain ⟨s, hs, hne, hi⟩ := hch
+    cases f with
+    | zero => simp [superChain] at hl
+    | succ f =>
+      rw [superChain, findClass_of_mem hf hx (ieq_refl _)] at hl
+      simp only [hs] at hl
+      have he : s.isEmpty = false := by cases s <;> simp_all
+      simp only [he] at hl
+      cases hr : superChain f cs s with
+      | error e => simp [hr] at hl
+      | ok l' => simp [hr] at hl; subst hl; exact ⟨s, by simp, hi⟩
+  | @trans x m a hma hx hch ih =>
+    intro f l hl
+    obtain ⟨s, hs, hne, hi⟩ := hch
+    cases f with
+    | zero => simp [superChain] at hl
+    | succ f =>
+      rw [superChain, findClass_of_mem hf hx (ieq_refl _)] at hl
+      simp only [hs] at hl
+      have he : s.isEmpty = false := by cases s <;> simp_all
+      simp only [he] at hl
+      cases hr : superChain f cs s with
+      | error e => simp [hr] at hl
+      | ok l' =>
+        simp [hr] at hl; subst hl
+        -- the chain continues from s, which names the same class as m
+        obtain ⟨q, hq, hqn⟩ := desc_is_stored hma
+        have hsq : superChain f cs s = superChain f cs m := by
+          cases f with
+          | zero => rfl
+          | succ f' =>
+            rw [superChain, superChain, findClass_of_mem hf hq (by rw [hqn]; exact ieq_symm hi),
+              findClass_of_mem hf hq (by rw [hqn]; exact ieq_refl _)]
+        rw [hsq] at hr
+        obtain ⟨s', hs', hi'⟩ := ih f l' hr
+        exact ⟨s', by simp [hs'], hi'⟩
+
 end Proofs.Resolve
